@@ -110,8 +110,10 @@ inline std::string echo_text(const std::map<std::string,std::string> &env,const 
 inline bool internal_host(const std::string &h){ if(h == "internal.example") return true; const std::string pre = "internal.example:"; if(h.compare(0,pre.size(),pre) != 0 || h.size() == pre.size()) return false; for(size_t i=pre.size();i<h.size();i++) if(h[i] < '0' || h[i] > '9') return false; return true; }
 inline std::string multipart_body(const Req &r){
 	std::string b;
-	for(auto &p:r.parts){ b += "--" + r.boundary + "\r\n"; b += "Content-Disposition: form-data; name=" + (p.quoted ? "\"" + p.name + "\"" : p.name);
-		if(p.has_filename) b += "; filename=\"" + p.filename + "\""; b += "\r\n"; if(!p.ctype.empty()) b += "Content-Type: " + p.ctype + "\r\n"; b += "\r\n" + p.content + "\r\n"; }
+	// quoted-string parameters (RFC 7230 3.2.6): a backslash and a double quote inside the value are sent as quoted-pairs
+	auto qs = [](const std::string &v){ std::string o = "\""; for(char c:v){ if(c == '"' || c == '\\') o += '\\'; o += c; } return o + "\""; };
+	for(auto &p:r.parts){ b += "--" + r.boundary + "\r\n"; b += "Content-Disposition: form-data; name=" + (p.quoted ? qs(p.name) : p.name);
+		if(p.has_filename) b += "; filename=" + qs(p.filename); b += "\r\n"; if(!p.ctype.empty()) b += "Content-Type: " + p.ctype + "\r\n"; b += "\r\n" + p.content + "\r\n"; }
 	b += "--" + r.boundary + "--\r\n"; return b;
 }
 // ---------------------------------------------------------------- encoders
